@@ -187,7 +187,7 @@ func (m *TCPMuxDefault) createConn(ufrag string, isIPv6 bool, local net.IP, from
 	go func() {
 		defer m.wg.Done()
 		<-conn.CloseChannel()
-		m.removeConnByUfragAndLocalHost(ufrag, connKey)
+		m.removeConnByUfragAndLocalHost(ufrag, connKey, conn)
 	}()
 
 	return conn, nil
@@ -388,13 +388,15 @@ func (m *TCPMuxDefault) RemoveConnByUfrag(ufrag string) {
 	}
 }
 
-func (m *TCPMuxDefault) removeConnByUfragAndLocalHost(ufrag string, localIPAddr ipAddr) {
+// removeConnByUfragAndLocalHost unregisters and closes self if it is still the connection registered
+// under (ufrag, localIPAddr): by the time its close watcher runs the key may belong to a newer connection.
+func (m *TCPMuxDefault) removeConnByUfragAndLocalHost(ufrag string, localIPAddr ipAddr, self *tcpPacketConn) {
 	removedConns := make([]*tcpPacketConn, 0, 4)
 
 	// Keep lock section small to avoid deadlock with conn lock
 	m.mu.Lock()
 	if conns, ok := m.connsIPv4[ufrag]; ok {
-		if conn, ok := conns[localIPAddr]; ok {
+		if conn, ok := conns[localIPAddr]; ok && conn == self {
 			delete(conns, localIPAddr)
 			if len(conns) == 0 {
 				delete(m.connsIPv4, ufrag)
@@ -403,7 +405,7 @@ func (m *TCPMuxDefault) removeConnByUfragAndLocalHost(ufrag string, localIPAddr 
 		}
 	}
 	if conns, ok := m.connsIPv6[ufrag]; ok {
-		if conn, ok := conns[localIPAddr]; ok {
+		if conn, ok := conns[localIPAddr]; ok && conn == self {
 			delete(conns, localIPAddr)
 			if len(conns) == 0 {
 				delete(m.connsIPv6, ufrag)
